@@ -133,7 +133,29 @@ func structured() []string {
 
 var invalids = []string{"", "1.0.0", "v", "v1.", "v01", "vx", "v1.2.3-", "v1.2.3+", "v1.2.3-a..b", "V1.0.0"}
 
+// FirstCalls is the menu of the fresh-process call-order check.
+func FirstCalls() []fw.Call {
+	var out []fw.Call
+	vs := []string{"v1.2.3-rc.1+meta", "v1.2.3", "v1.2", "bad", "v1.10.0-0123"}
+	for _, v := range vs {
+		v := v
+		out = append(out, fw.Call{Name: "accessors(" + v + ")", F: func() string {
+			return fmt.Sprintf("%v %q %q %q %q %q", semver.IsValid(v), semver.Canonical(v), semver.Major(v), semver.MajorMinor(v), semver.Prerelease(v), semver.Build(v))
+		}})
+	}
+	out = append(out, fw.Call{Name: "Compare", F: func() string {
+		return fmt.Sprint(semver.Compare(vs[0], vs[1]), semver.Compare(vs[1], vs[2]), semver.Compare(vs[3], vs[4]), semver.Max(vs[0], vs[1]))
+	}})
+	out = append(out, fw.Call{Name: "Sort", F: func() string {
+		l := append([]string(nil), vs...)
+		semver.Sort(l)
+		return fmt.Sprint(l)
+	}})
+	return out
+}
+
 func Run(r *fw.Run) {
+	defer fw.FirstCallOrders(r, r.ID, FirstCalls(), nil)
 	L := r.Pick(8, 9)
 	Lv := r.Pick(7, 8)
 	r.Bounds["alphabet"] = alphabet
@@ -232,7 +254,9 @@ func Run(r *fw.Run) {
 		dslots := []struct {
 			pre, post string
 			c         byte
-		}{{"v1.2.3-", "", 'a'}, {"v1.2.3-x.", ".y", 'b'}, {"v1.", ".3", '7'}, {"v1.2.3-", "", '9'}, {"v1.2.3+", "", 'm'}, {"v1.2.3-a.", "", '0'}}
+		}{{"v1.2.3-", "", 'a'}, {"v1.2.3-x.", ".y", 'b'}, {"v1.", ".3", '7'}, {"v1.2.3-", "", '9'}, {"v1.2.3+", "", 'm'}, {"v1.2.3-a.", "", '0'},
+			// a leading zero makes a numeric identifier invalid whatever its length (and value)
+			{"v1.2.3-0", "", '9'}, {"v1.2.3-a.0", ".b", '1'}, {"v1.2.3-00", "", '0'}, {"v1.0", ".3", '7'}, {"v0", ".2.3", '5'}, {"v1.2.3-0", "", 'a'}}
 		r.Bounds["dense_length_sweep"] = fmt.Sprintf("%d slots x every fill length 0..%d", len(dslots), enum.DenseMax)
 		fw.Parallel(len(dslots), func(i int) {
 			l := fw.NewLocal()
